@@ -7,13 +7,22 @@ def run(c):
     c.rule = ("one case = one queryBuilder (mode series/tagValues/tagValueIDs, metric nil or with 0-48 tags incl. raw/raw64/prekey, "
               "0-4 positive and 0-4 negative tag filters with 0-5 values each: mapped+string, string-only, mapped-only, the empty value, "
               "zero value, id -2/0/int64 extremes, optional regular expression) built from hostile strings (quotes, backslashes, NUL/"
-              "control bytes, invalid UTF-8, SQL fragments, trailing backslash); the REAL writeWhere text, its literal scan, the scan of "
-              "the complete query body and the selection of 8 rows are compared with the Lean model; non-trivial = some filter string "
+              "control bytes, invalid UTF-8, SQL fragments, trailing backslash); plus the rest of the query: 0-7 digest kinds (1..9, duplicates, avg/stddev/sum/count overlaps, gaps), "
+              "min/max host, group-by incl. shard in caller order, sort none/asc/desc, all 11 LOD steps + the 1-month step with a "
+              "time-zone name + an unknown step, utc offsets, 3 SETTINGS texts, sharded or not, tag-values tag with own raw/raw64 flags "
+              "and index incl. string-top; the REAL writeWhere text AND the REAL complete body of buildSeriesQuery / buildTagValuesQuery / "
+              "buildTagValueIDsQuery (byte for byte), their literal scans and the selection of 8 rows are compared with the Lean model; non-trivial = some filter string "
               "contains a quote or backslash, or a regex / empty value / raw tag / raw64 tag is present; distinct by op-sequence hash")
     c.assumptions += [
-        "ClickHouse's single-quoted literal lexer/decoder is modelled from its source as remembered (Lexer.cpp quotedString, "
-        "ReadHelpers.cpp parseComplexEscapeSequence): '' -> ', \\x.., \\N, named escapes, unknown escapes keep the backslash; "
-        "ClickHouse itself is not run",
+        "TRUSTED, NOT CHECKED AGAINST ClickHouse: the single-quoted literal lexer/decoder `lexLit`/`scan` is written from ClickHouse's "
+        "source as remembered (Lexer.cpp quotedString: a literal ends at an unescaped quote not followed by a quote, backslash skips "
+        "one character; ReadHelpers.cpp parseComplexEscapeSequence: '' -> ', \\xHH, \\N -> nothing, \\a\\b\\e\\f\\n\\r\\t\\v\\0, "
+        "unknown escapes keep the backslash). ClickHouse is not available here; the theorems need of it only: backslash-backslash "
+        "-> backslash, backslash-quote -> quote, every other byte except quote/backslash stands for itself",
+        "configuration, not filter values: the LOD time-zone name is written between quotes WITHOUT escaping (1-month step); the "
+        "whole-query theorems assume it has no quote/backslash and that the SETTINGS text has no quote/parenthesis (hypothesis QOK)",
+        "digest kinds are DigestWhat values 1..9 (a number >= DigestLast would index has[DigestLast]bool out of range before the "
+        "switch default); LOD version 6; group-by entries are tag indices 0..47 or the shard index",
         "match() is an uninterpreted predicate of (pattern, subject): the property needs only that the original pattern reaches it",
         "row semantics of IN / NOT IN / = / AND / OR / NOT on non-NULL Int and String columns as in standard SQL",
         "a row's integer value for a tag is the value of the integer expression the builder itself uses for that tag in the where-clause "
@@ -21,7 +30,8 @@ def run(c):
         "with a regular expression the caller only passes string values the expression matches (promql engine getTagValues loop); "
         "the semantic oracle and theorem carry this hypothesis",
     ]
-    c.prove("SH.Props.C26", extra_files=["SH/Model/Sql.lean"])
+    c.prove("SH.Lemmas.Sql", extra_files=["SH/Model/Sql.lean"])      # helper development (every theorem audited too)
+    c.prove("SH.Props.C26", extra_files=["SH/Model/Sql.lean", "SH/Lemmas/Sql.lean"])
     drv = c.driver(DRIVER)
     binary = c.go_build(HARNESS)
     if binary and drv:
@@ -42,20 +52,30 @@ def run(c):
 
 META = {
     "level": "proof",
-    "technique": ("Lean 4 theorems over an executable model of the where-clause writer and of ClickHouse's quoted-literal lexer "
-                  "(induction over byte strings / value lists) + differential correspondence of the real writeWhere text, its literal "
-                  "scan and its row selection + direct structure/semantics oracle on the real query text"),
+    "technique": ("Lean 4 theorems over an executable model of the complete query writers (select list, from, where, group by, having, "
+                  "order by, limit, settings) and of ClickHouse's quoted-literal lexer (induction over byte strings / value lists / the "
+                  "digest loop) + byte-exact differential correspondence of the real where text AND the real complete query text, its "
+                  "literal scan and its row selection + direct structure/semantics oracle on the real query text"),
     "text": ("Kernel-checked for ALL byte strings: the ClickHouse literal lexer applied to '<escape s>' returns exactly s and stops at the "
-             "closing quote (no user byte can end a literal); for every builder configuration and every filter the where text scans into "
-             "exactly the user strings (in order, one literal each) and a skeleton that does not depend on the string contents, contains "
-             "no quote and has balanced parentheses; the condition tree written for a tag selects a row iff the row matches some requested "
-             "value (positive filter) / no requested value (negative filter), with the 0!=0 / 0=0 conventions, the empty value and raw tags. "
-             "The model is tied to the code by comparing the real writeWhere output byte for byte, and the real text is re-lexed, parsed "
-             "and evaluated independently by the Go oracle."),
-    "note": ("Trusted: Lean kernel; the ClickHouse lexer model (from memory of its source, not executable here); SQL row semantics of the "
-             "operators used; model<->code correspondence on generated cases (quick 3000, thorough 60000). Regular expressions are opaque "
-             "(passed through as literals). Select/group-by/order-by parts of the queries are not modelled; they are covered by the oracle "
-             "(complete body re-lexed, token stream compared with a benign twin). LOD.Location (time-zone name written unescaped for the "
-             "1-month step) is not a filter value and is out of scope."),
+             "closing quote (no user byte can end a literal). For every builder configuration and all filters the WHERE text and the "
+             "COMPLETE text of series / tag-values / tag-value-IDs queries (query_wellformed) scan into exactly the user strings (in order, "
+             "one literal each, decoded back to the original) and a skeleton that contains no quote, has balanced parentheses and does "
+             "not depend on the string contents (where_skeleton_independent, query_skeleton_independent). Every regular expression is "
+             "written once, escaped, in positive and negative clauses of non-raw tags, decodes back to itself whatever follows "
+             "(regex_literal_decodes, regex_decodes_in_tag) and is not written for raw tags. The condition tree written for a tag selects a "
+             "row iff the row matches some requested value (positive) / none (negative), with the 0!=0 / 0=0 conventions, the empty value "
+             "and raw tags (where_selects_exactly). The model is tied to the code by comparing the real writeWhere output and the real "
+             "complete query body byte for byte; the real text is also re-lexed, parsed and evaluated independently by the Go oracle."),
+    "note": ("Trusted and explicit: (1) the ClickHouse literal-lexer model (lexLit/scan) is written from memory of ClickHouse's Lexer.cpp / "
+             "ReadHelpers.cpp and is NOT validated against a ClickHouse binary (none available offline); only three facts of it are used by "
+             "the theorems (\\\\ -> \\, \\' -> ', other bytes literal; '' is a doubled quote). (2) SQL row semantics of IN/NOT IN/=/AND/OR/NOT "
+             "on non-NULL columns; match() is an uninterpreted predicate. (3) model<->code correspondence on generated cases (quick 3000, "
+             "thorough 60000). Hypotheses: RegexCovers (caller passes only string values the regex matches; shown necessary by "
+             "regex_invariant_needed); QOK (configuration: time-zone name without quote/backslash since the code writes it unescaped, SETTINGS "
+             "without quote/parenthesis; shown necessary by a decide witness). Not proved: a full SQL grammar for the skeleton (only quote-"
+             "freeness, literal placement and parenthesis balance; the Go oracle parses the real where text with a grammar), result-column "
+             "binding (q.res). Observation outside the property: MetricMetaValue.RestoreCachedInfo tests tag.Index before assigning it, so an "
+             "int64 kind on tag 47 survives the first validation and a filter on that tag panics raw64Expr (format.TagID(48)); the harness "
+             "stays inside validated metadata."),
     "design_ref": "DESIGN.md §6 C26",
 }
